@@ -48,7 +48,7 @@ BASE_SPEC = [
 ]
 
 VARIANTS = ('base', 'passport_cascade', 'group_cascade', 'passport_optional', 'car_optional', 'car_nocascade',
-            'group_owner', 'profile_pk', 'cascade_mix', 'passport_req_cascade')
+            'group_owner', 'profile_pk', 'cascade_mix', 'passport_req_cascade', 'car_explicit_pk')
 
 
 def spec_variant(name):
@@ -75,6 +75,12 @@ def spec_variant(name):
         attrs[i] = ('passport', 'req', dict(attrs[i][2], cascade_delete=True))
         attrs, i = attr('Passport', 'person')
         attrs[i] = ('person', 'opt', attrs[i][2])
+    elif name == 'car_explicit_pk':
+        # members of a cascading collection with a primary key the program chooses: a car created in the session
+        # is in the identity map under its key before it is inserted (and has to be there again after a refused
+        # delete of its owner took it away)
+        attrs, i = attr('Car', 'id')
+        attrs[i] = ('id', 'pk', {'type': 'int'})
     elif name == 'cascade_mix':
         # a cascade that runs through several levels (group -> members -> passport) and can be refused late
         # (a member that owns a car): everything the cascade already deleted has to come back
@@ -132,6 +138,7 @@ POOLS = {
     ('Group', 'title'): ['', 't1', 't2'],
     ('Course', 'name'): ['math', 'art', 'bio'],
     ('Course', 'credits'): [1, 2, 3],
+    ('Car', 'id'): [1, 2, 3, 4, 5, 6],
     ('Car', 'plate'): ['pl1', 'pl2', 'pl3', 'pl4'],
     ('Car', 'seats'): [None, 2, 4],
     ('Log', 'msg'): ['l1', 'l2', 'l3'],
